@@ -549,3 +549,19 @@ def main_parpairs_all(skip=()):
         except SystemExit as e:
             rc = rc or (e.code or 0)
     sys.exit(rc)
+
+
+def main_buspair():
+    """create_bus / create_buses on generated vectors (NaN voltage limits and the defaults 0.0 / 2.0 count as equal, DEFAULT_EQUIV)"""
+    fails = []
+    vecs = {"all given": dict(in_service=[True, False, True], min_vm_pu=[.9, .92, .95], max_vm_pu=[1.1, 1.08, 1.05]),
+            "limits partly NaN": dict(in_service=[False, True, True], min_vm_pu=[.9, np.nan, .95], max_vm_pu=[np.nan, 1.08, np.nan]),
+            "required only": {}}
+    vn = [20., .4, 10.]
+    for tag, kw in vecs.items():
+        s, b = base_net(), base_net()
+        for k in range(3):
+            pp.create_bus(s, vn[k], **{a: v[k] for a, v in kw.items()})
+        pp.create_buses(b, 3, vn, **kw)
+        compare_tables(s, b, "bus", fails, f"create_bus(es) [{tag}]")
+    return _report(fails, "create_buses equals the sequence of create_bus calls on the generated vectors")
